@@ -1,5 +1,5 @@
 /- L0 facts about the accessors, Display and Default of ExponentialMovingAverage (split from Lemmas/ExponentialMovingAverage.lean so that a change to one method only invalidates the facts about that method) -/
-import TaRs.Lemmas.ExponentialMovingAverage
+import TaRs.Lemmas.Core.ExponentialMovingAverage
 set_option linter.unusedSectionVars false
 namespace TaRs.Gen.ExponentialMovingAverage
 open TaRs TaRs.Rs
